@@ -150,6 +150,9 @@ def build(tier, seed):
         for dt in LABEL_DTS:
             n_m += 1
             cases.append({'kind': 'm', 'w': [VALUES[i] for i in w], 'dt': dt})
+    # histories of files: the same path written again with a record of another length, and results of earlier loads held by the caller
+    for n1, n2 in HISTORY_LENGTHS:
+        cases.append({'kind': 'history', 'n1': n1, 'n2': n2})
     long_ns = _long_lengths(tier)
     for n in long_ns:
         for dt in LONG_DTS[tier]:
@@ -191,7 +194,7 @@ def build(tier, seed):
                                            'one option of load_asig alone', 'all arguments by name'],
                    'loaders': ['load_values_and_dt', 'load_signal(astype=signal)', 'load_signal(astype=acc_sig)',
                                'load_signal()', 'load_sig', 'load_asig']},
-        'required_classes': ['dt>=1', 'dt<1', 'one-sample', 'multi-sample', 'label-plain', 'label-space',
+        'required_classes': ['same-path-written-twice', 'second-record-shorter', 'earlier-load-result-held', 'dt>=1', 'dt<1', 'one-sample', 'multi-sample', 'label-plain', 'label-space',
                              'label-leading-space', 'label-trailing-space', 'label-space-run',
                              'label-comma-hash', 'm-default', 'm-scaled', 'm-negative', 'value-exact',
                              'value-rounded', 'value-negative', 'value-large', 'value-below-precision',
@@ -556,8 +559,97 @@ def _value_classes(r, w, dt):
         r.cls('value-beyond-6-decimals-exact')    # a non-integer double that has no 6th decimal: comes back exactly
 
 
+HISTORY_LENGTHS = ((60, 12), (12, 60), (5, 5), (3, 1), (1, 3), (40, 39), (2000, 7))
+
+
+def _hist_record(n, k):
+    return [round(((i * 37 + k * 11) % 23 - 11) * 0.123456 + k, 6) for i in range(n)]
+
+
+def run_history(r, case):
+    n1, n2 = int(case['n1']), int(case['n2'])
+    r.nontrivial += 1
+    a = _hist_record(n1, 1)
+    b = _hist_record(n2, 2)
+    base = os.path.join(_scratch(), 'h')
+    fa, fb = base + '_a.txt', base + '_b.txt'
+    dt = 0.01
+    loaders = _loaders(n_m=(2.5,))
+    try:
+        for saver in ('save_values_and_dt', 'save_signal:AccSignal', 'save_signal:Signal'):
+            sub0 = {'n_first': n1, 'n_second': n2, 'saver': saver}
+            # (i) the SAME path written twice: what is loaded afterwards is the second record, whatever the file held before
+            ok, _ = r.call('save', dict(sub0, step='first record'), _save, saver, fa, a, dt, 'first')
+            ok2, _ = r.call('save', dict(sub0, step='second record to the same path'), _save, saver, fa, b, dt, 'second')
+            if ok and ok2:
+                r.cls('same-path-written-twice')
+                r.cls('second-record-shorter' if n2 < n1 else ('second-record-longer' if n2 > n1 else 'second-record-same-length'))
+                for name, extra, fn, want_cls, m, want_label in loaders:
+                    sub = dict(sub0, loader=name, sequence='save(A, path), save(B, path), load(path)')
+                    sub.update(extra)
+                    r.states += 1
+                    ok, out = r.call('load', sub, fn, fa)
+                    if not ok:
+                        continue
+                    try:
+                        vals = out[0] if name == 'load_values_and_dt' else out.values
+                    except Exception as e:
+                        r.fail('load', sub, 'malformed result: %s' % e, observed=out)
+                        continue
+                    _check_values(r, sub, vals, b, m)
+            # (ii) what the caller got from an earlier load stays what it is while other files are loaded
+            ok, _ = r.call('save', dict(sub0, step='A'), _save, saver, fa, a, dt, 'first')
+            ok2, _ = r.call('save', dict(sub0, step='B'), _save, saver, fb, b, dt, 'second')
+            if not (ok and ok2):
+                continue
+            sub = dict(sub0, sequence='r = load_values_and_dt(A), other loads of A and B, r unchanged?')
+            ok, first = r.call('load', sub, loader.load_values_and_dt, fa)
+            if not ok:
+                continue
+            try:
+                held = first[0]
+                held_copy = np.array(held, dtype=float, copy=True)
+            except Exception as e:
+                r.fail('load', sub, 'malformed result: %s' % e, observed=first)
+                continue
+            objs = []
+            for name, extra, fn, want_cls, m, want_label in loaders:
+                for f_ in (fb, fa):
+                    try:
+                        objs.append((name, extra, m, f_, fn(f_)))
+                    except Exception:
+                        pass
+            r.cls('earlier-load-result-held')
+            r.n_cmp += 1
+            try:
+                same = np.asarray(held).shape == held_copy.shape and bool(np.all(np.asarray(held, dtype=float) == held_copy))
+            except Exception:
+                same = False
+            r.expect('values.earlier-result-intact', sub, same, 'the array returned by an earlier load changed when other files were loaded',
+                     observed=held, expected=held_copy)
+            _check_values(r, dict(sub, loader='load_values_and_dt'), held_copy, a, 1.0)
+            # ... and every object loaded in that sequence still holds its own file's values at the end
+            for name, extra, m, f_, out in objs:
+                s2 = dict(sub0, loader=name, file='A' if f_ == fa else 'B', sequence='loaded in a row, examined at the end')
+                s2.update(extra)
+                try:
+                    vals = out[0] if name == 'load_values_and_dt' else out.values
+                except Exception:
+                    continue
+                _check_values(r, s2, vals, a if f_ == fa else b, m)
+    finally:
+        for f_ in (fa, fb):
+            try:
+                os.remove(f_)
+            except OSError:
+                pass
+    return r
+
+
 def run_case(case):
     r = Res()
+    if case.get('kind') == 'history':
+        return run_history(r, case)
     ffp = os.path.join(_scratch(), 'c.txt')
     if case.get('kind') == 'long':
         n = int(case['n'])
